@@ -26,7 +26,7 @@ HARNESS(h_gaussian32) {
     ASSUME(sigma >= 9.313225746154785e-10 && sigma <= 0.03125);   /* 2^-30 .. 2^-5 */
     rng_n = 0;
     uint32_t g = (uint32_t) gaussian32((Torus32) m, sigma);
-    CHECK(rng_n == 1 && rng_kind[0] == 1 && rng_sigma[0] == sigma && rng_mean[0] == 0.0 && !rng_bad_engine, "C03/C07 gaussian32 draws one gaussian of the requested sigma from the library generator");
+    CHECK(rng_n == 1 && rng_kind[0] == 1 && rng_sigma[0] == sigma && rng_mean[0] == 0.0 && !rng_bad_engine, "C03/C07 gaussian32 draws one gaussian of the requested sigma from the library generator [sampling idiom]");
     int64_t d = (int64_t) (int32_t) (g - m);
     double lim = rng_R * sigma * 4294967296.0;
     symx_observe(g);
@@ -58,7 +58,7 @@ HARNESS(h_lwe_encrypt_phase) {
     const int first_mask = 0;
 #else
     lweSymEncrypt(c, (Torus32) m, alpha, key);
-    CHECK(rng_kind[0] == 1 && rng_sigma[0] == alpha, "C03/C07 lweSymEncrypt: one gaussian draw with sigma = alpha");
+    CHECK(rng_kind[0] == 1 && rng_sigma[0] == alpha, "C03/C07 lweSymEncrypt: one gaussian draw with sigma = alpha [sampling idiom]");
     uint32_t e = (uint32_t) dtot32(rng_dval[0]);
     const int first_mask = 1;
 #endif
@@ -133,7 +133,7 @@ HARNESS(h_tlwe_encrypt_phase) {
     CHECK(rng_n == PN + PK * PN && !rng_bad_engine, "C03/C07 tLweSymEncrypt: N gaussian draws then k*N uniform draws");
     tLwePhase(ph, c, key);
     for (int j = 0; j < PN; j++) {
-        CHECK(rng_kind[j] == 1 && rng_sigma[j] == alpha, "C03/C07 TLWE noise coefficient: gaussian with sigma = alpha");
+        CHECK(rng_kind[j] == 1 && rng_sigma[j] == alpha, "C03/C07 TLWE noise coefficient: gaussian with sigma = alpha [sampling idiom]");
         uint32_t want = (uint32_t) dtot32(rng_dval[j]) + ((TVAR == 0 || j == 0) ? mm[j] : 0u);
         symx_observe((uint32_t) ph->coefsT[j]);
         CHECK((uint32_t) ph->coefsT[j] == want + CANARY, "C03 tLwePhase(tLweSymEncrypt(msg)) == msg + e coefficient-wise");
@@ -197,7 +197,7 @@ HARNESS(h_gate_roundtrip) {
     int32_t bit = nondet_i32();
     rng_n = 0;
     bootsSymEncrypt(c, bit, sk);
-    CHECK(rng_kind[0] == 1 && rng_sigma[0] == alpha, "C03/C07 fresh gate ciphertexts use the input-key noise level alpha_min");
+    CHECK(rng_kind[0] == 1 && rng_sigma[0] == alpha, "C03/C07 fresh gate ciphertexts use the input-key noise level alpha_min [sampling idiom]");
     int32_t d = bootsSymDecrypt(c, sk);
     symx_observe((uint32_t) d);
     CHECK(d == ((bit != 0) ? 1 : 0) + CANARY, "C03 bootsSymDecrypt(bootsSymEncrypt(bit)) == bit");
